@@ -282,12 +282,14 @@ func (self *SLock) updateState(state uint8) {
 
 	for _, db := range self.dbs {
 		if db != nil && db.status != state {
+			// not LowPriorityLock: waiting for a congested persistence channel to drain while
+			// holding the other shards deadlocks with that channel's worker, which may need one of them
 			for i := uint16(0); i < db.managerMaxGlocks; i++ {
-				db.managerGlocks[i].LowPriorityLock()
+				db.managerGlocks[i].Lock()
 			}
 			db.status = state
 			for i := uint16(0); i < db.managerMaxGlocks; i++ {
-				db.managerGlocks[i].LowPriorityUnlock()
+				db.managerGlocks[i].Unlock()
 			}
 		}
 	}
